@@ -10,7 +10,7 @@ PROP = {
          'sub-tx, box in box, replay of an ancestor tx alone and inside a box). accepted => predicate (parent known, height, time window, extra <= 256, signed by the in-turn deputy, '
          'miner address, every tx well-formed / unexpired / not on the ancestor path, honest re-execution with the same miner-chosen fields reproduces the hash) and stored body agrees '
          'with hashed roots; rejected => digest(current, stable, membership of every offered hash, unconfirmed listing, Obs(head), pool, tx-guard samples, top list) unchanged. '
-         'distinct = (deputies, mutation operator); every mutant is non-trivial The slot rule of the predicate is written from the term\'s deputy list (not the repository\'s schedule code, which only chooses the signer of re-mined blocks); the base transactions are mined again in up to 2n+1 later slots; every eighth scenario crosses a term change at which the deputy set grows and mutates the first block the new term signs.',
+         'distinct = (deputies, mutation operator); every mutant is non-trivial The slot rule of the predicate is written from the term\'s deputy list (not the repository\'s schedule code, which only chooses the signer of re-mined blocks); the base transactions are mined again in up to 2n+1 later slots; every eighth scenario crosses a term change at which the deputy set grows and mutates the first block the new term signs. Extra data is also corrupted with well-formed multi-byte text (258 bytes in 86 characters, 768 in 256) and invalid UTF-8.',
  'assumptions': ['Extra (<= 256), GasLimit, Time inside the slot and DeputyRoot bytes at non-snapshot heights are miner-chosen: a correctly re-signed block differing only there is a different valid block',
                  'future-time mutants use now+5 s and now+100000 s, never the boundary itself',
                  'valid => accepted (completeness) is C01\'s subject; here only soundness and rejection purity are judged'],
